@@ -334,7 +334,7 @@ def run_cases(harness, cases, asan=False, per_case_timeout=60, jobs=16, env=None
         if rc == 0:
             return [(out, None)]
         if len(ch) == 1:
-            return [(out, (ch[0][0], rc, err[-3000:]))]
+            return [(out, (ch[0][0], rc, (err if len(err) <= 6000 else err[:2500] + "\n[...]\n" + err[-3500:])))]
         res = []
         for c in ch:
             if len(timeouts) >= max_timeouts:
